@@ -54,6 +54,9 @@ type caseIn struct {
 	Parks    []int   `json:"parks"`   // tunnel_sched: per closer 1 = park before the CAS
 	Order    []int   `json:"order"`   // tunnel_sched: release order
 	Reads    int     `json:"reads"`
+	Point    int     `json:"point"`  // tunnel_start: -1 = Close lands in the manager double's Ctx(); p >= 0 = Start parked at its p-th statement
+	Side     int     `json:"side"`   // bridge_stall: 0 = the source peer is stalled, 1 = the target peer
+	Reason   int     `json:"reason"` // tunnel_start: close reason (2 = through the peer-notification path of the manager)
 }
 
 type out map[string]interface{}
@@ -466,6 +469,14 @@ func (c *countConn) Close() error {
 type countMgr struct {
 	*ctun.DefaultTunnelManager
 	unreg atomic.Int32
+	hook  atomic.Pointer[func()] // one-shot: runs inside the next Ctx() call (Tunnel.Start reads the manager context once)
+}
+
+func (m *countMgr) Ctx() context.Context {
+	if f := m.hook.Swap(nil); f != nil {
+		(*f)()
+	}
+	return m.DefaultTunnelManager.Ctx()
 }
 
 func (m *countMgr) UnregisterTunnel(id string) bool {
@@ -766,6 +777,138 @@ func runTunnelSched(c caseIn) out {
 		return fail(o, "tunnel-hang", "a Close call did not return")
 	}
 	return tunnelPredicate(o, false, fmt.Sprintf("closers parked before the CAS %v, released in order %v", c.Parks, c.Order))
+}
+
+// tunnelGoroutines counts the live goroutines started by (*Tunnel).Start for any tunnel (monitors, copy loop).
+func tunnelGoroutines() []string {
+	buf := make([]byte, 4<<20)
+	buf = buf[:runtime.Stack(buf, true)]
+	var res []string
+	for _, g := range strings.Split(string(buf), "\n\n") {
+		for _, f := range []string{"monitorPeerNotification", "monitorTimeout", "runDataCopy"} {
+			if strings.Contains(g, "tunnel.(*Tunnel)."+f) {
+				res = append(res, f)
+				break
+			}
+		}
+	}
+	sort.Strings(res)
+	return res
+}
+
+// runTunnelStart: ONE complete Close lands at a chosen point inside Start (Connecting tunnel, registered in its manager):
+// point -1: inside the manager double's Ctx() accessor, which Start calls exactly once (plain binary);
+// point p >= 0 (instrumented binary): Start is parked at its p-th statement boundary, Close runs to completion, Start resumes
+// (if Start has fewer statements it simply finishes first and Close runs afterwards).
+// Checked after both returned: state Closed, onClosed exactly once, no goroutine of the tunnel remains.
+func runTunnelStart(c caseIn) out {
+	o := out{"prop_ok": true}
+	w := newTunWorld(0, false)
+	doClose := func() {
+		done := make(chan struct{})
+		go func() {
+			if c.Reason == 2 {
+				w.mgr.OnTunnelClosed("t1", "m1", "peer", 0, 0, 0)
+			} else {
+				w.t.Close(ctun.CloseReason(c.Reason), nil)
+			}
+			close(done)
+		}()
+		select {
+		case <-done:
+		case <-time.After(waitLong):
+			fail(o, "tunnel-hang", "Close did not return")
+		}
+	}
+	passed := []string{}
+	closedInside := false
+	arrived, resume := make(chan struct{}, 1), make(chan struct{})
+	startG := ""
+	if c.Point < 0 {
+		f := func() { closedInside = true; doClose() }
+		w.mgr.hook.Store(&f)
+	} else {
+		n := 0
+		ctun.VerifC16Hook = func(fn, label string) {
+			if fn != "Start" || goid() != startG {
+				return
+			}
+			if n == c.Point {
+				n++
+				arrived <- struct{}{}
+				<-resume
+				return
+			}
+			n++
+			if label != "stmt" {
+				passed = append(passed, label)
+			}
+		}
+		defer func() { ctun.VerifC16Hook = nil }()
+	}
+	var startErr error
+	startDone := make(chan struct{})
+	reg := make(chan struct{})
+	go func() {
+		startG = goid()
+		close(reg)
+		startErr = w.t.Start()
+		close(startDone)
+	}()
+	<-reg
+	if c.Point >= 0 {
+		select {
+		case <-arrived:
+			// the labels passed so far are exactly those recorded before the park
+			o["steps_done"] = len(passed)
+			closedInside = true
+			doClose()
+			close(resume)
+		case <-startDone:
+			o["steps_done"] = -2 // Start finished before reaching the point
+		case <-time.After(waitLong):
+			fail(o, "tunnel-hang", "Start did not reach the point nor return")
+		}
+	}
+	select {
+	case <-startDone:
+	case <-time.After(waitLong):
+		fail(o, "tunnel-hang", "Start did not return")
+	}
+	if c.Point < 0 {
+		o["steps_done"] = -1
+	}
+	if !closedInside {
+		doClose()
+	}
+	// nothing started by the tunnel may survive: poll up to 2 s (on a correct tree they are gone within milliseconds)
+	var left []string
+	for dl := time.Now().Add(2 * time.Second); ; {
+		left = tunnelGoroutines()
+		if len(left) == 0 || time.Now().After(dl) {
+			break
+		}
+		time.Sleep(2 * time.Millisecond)
+	}
+	w.observe(o, 0)
+	o["start_ok"], o["closed_inside"], o["left"], o["labels"] = startErr == nil, closedInside, left, passed
+	w.cancel()
+	w.mgr.Close()
+	if ok, _ := o["prop_ok"].(bool); !ok {
+		return o
+	}
+	what := fmt.Sprintf("a complete Close (reason %d) at point %d of Start (steps done %v, Start returned ok=%v)", c.Reason, c.Point, o["steps_done"], startErr == nil)
+	switch {
+	case len(left) > 0:
+		return fail(o, "tunnel-start-close-leak", fmt.Sprintf("%s: tunnel is in state %d but its goroutines are still running: %s", what, o["state"], strings.Join(left, ", ")))
+	case o["on_closed"].(int) != 1:
+		return fail(o, "tunnel-close-not-run", fmt.Sprintf("%s: onClosed ran %d times", what, o["on_closed"]))
+	case o["state"].(int) != 3:
+		return fail(o, "tunnel-not-closed", fmt.Sprintf("%s: final state %d, want Closed(3)", what, o["state"]))
+	case o["registered"].(bool):
+		return fail(o, "tunnel-not-closed", what+": still registered in its manager")
+	}
+	return o
 }
 
 // ---------------------------------------------------------------------------------------------------
@@ -1322,6 +1465,235 @@ func runBridgeRace(c caseIn) out {
 	return o
 }
 
+// stallConn: a peer that has stopped reading: Write signals entry and blocks until the connection is closed locally
+// (what a TCP write to a stalled peer does); Read blocks until Close as well.
+type stallConn struct {
+	entered chan struct{}
+	eonce   sync.Once
+	closed  chan struct{}
+	conce   sync.Once
+	closes  atomic.Int32
+}
+
+type stallAddr struct{}
+
+func (stallAddr) Network() string { return "verif" }
+func (stallAddr) String() string  { return "stalled-peer" }
+
+func newStallConn() *stallConn { return &stallConn{entered: make(chan struct{}), closed: make(chan struct{})} }
+func (c *stallConn) Read(p []byte) (int, error) {
+	<-c.closed
+	return 0, io.EOF
+}
+func (c *stallConn) Write(p []byte) (int, error) {
+	c.eonce.Do(func() { close(c.entered) })
+	<-c.closed
+	return 0, io.ErrClosedPipe
+}
+func (c *stallConn) Close() error {
+	c.closes.Add(1)
+	c.conce.Do(func() { close(c.closed) })
+	return nil
+}
+func (c *stallConn) LocalAddr() net.Addr                { return stallAddr{} }
+func (c *stallConn) RemoteAddr() net.Addr               { return stallAddr{} }
+func (c *stallConn) SetDeadline(t time.Time) error      { return nil }
+func (c *stallConn) SetReadDeadline(t time.Time) error  { return nil }
+func (c *stallConn) SetWriteDeadline(t time.Time) error { return nil }
+
+func bridgeGoroutines() []string {
+	buf := make([]byte, 4<<20)
+	buf = buf[:runtime.Stack(buf, true)]
+	var res []string
+	for _, g := range strings.Split(string(buf), "\n\n") {
+		if i := strings.Index(g, "session/tunnel.(*Bridge)."); i >= 0 {
+			f := g[i+len("session/tunnel."):]
+			if j := strings.IndexAny(f, "(\n"); j > 0 && strings.HasPrefix(f, "(*Bridge).") {
+				if k := strings.Index(f[10:], "("); k > 0 {
+					f = f[:10+k]
+				}
+			}
+			res = append(res, strings.TrimSpace(strings.SplitN(f, "\n", 2)[0]))
+		}
+	}
+	sort.Strings(res)
+	return res
+}
+
+// runBridgeStall: K concurrent Bridge.Close calls arrive while one forwarding direction is blocked in a Write to a stalled
+// peer (side 0: the source client stopped reading, the target->source copy is blocked; side 1: symmetric).
+// Required: every Close returns within the watchdog, Start returns, no (*Bridge). goroutine remains, each tunnel
+// connection was closed once, the cleanup handler's traffic report ran once.
+func runBridgeStall(c caseIn) out {
+	o := out{"prop_ok": true}
+	cc := newGatedCC()
+	cc.free = true
+	ctx, cancel := context.WithCancel(context.Background())
+	defer cancel()
+	stall := newStallConn()
+	pa, pb := net.Pipe() // pa: bridge side of the healthy peer, pb: the peer itself
+	healthy := &cntNetConn{Conn: pa}
+	var stc, ttc *fakeTC
+	if c.Side == 0 {
+		stc, ttc = &fakeTC{id: "s", conn: stall}, &fakeTC{id: "t", conn: healthy}
+	} else {
+		stc, ttc = &fakeTC{id: "s", conn: healthy}, &fakeTC{id: "t", conn: stall}
+	}
+	b := stun.NewBridge(ctx, &stun.BridgeConfig{TunnelID: "bs", MappingID: "m1", CloudControl: cc, SourceTunnelConn: stc})
+	b.SetTargetConnection(ttc)
+	startDone := make(chan struct{})
+	go func() { b.Start(); close(startDone) }()
+	go func() { pb.Write([]byte("bytes for a peer that stopped reading")) }()
+	select {
+	case <-stall.entered:
+	case <-time.After(waitLong):
+		stall.Close()
+		pb.Close()
+		b.Close()
+		return fail(o, "bridge-stall-setup", "the bridge never wrote to the stalled peer")
+	}
+	b.AddBytesSent(7) // something for the cleanup handler's report
+	k := c.K
+	if k < 1 {
+		k = 1
+	}
+	var wg sync.WaitGroup
+	for i := 0; i < k; i++ {
+		wg.Add(1)
+		go func() { defer wg.Done(); b.Close() }()
+	}
+	closeDone := make(chan struct{})
+	go func() { wg.Wait(); close(closeDone) }()
+	closeReturned := true
+	select {
+	case <-closeDone:
+	case <-time.After(3 * time.Second):
+		closeReturned = false
+	}
+	o["close_returned"] = closeReturned
+	hung := bridgeGoroutines()
+	if !closeReturned {
+		// release the world so the following cases are not disturbed: closing the stalled connection by hand lets the
+		// blocked Write return
+		stall.Close()
+		select {
+		case <-closeDone:
+		case <-time.After(waitLong):
+		}
+	}
+	startReturned := true
+	select {
+	case <-startDone:
+	case <-time.After(3 * time.Second):
+		startReturned = false
+	}
+	pb.Close()
+	var left []string
+	for dl := time.Now().Add(2 * time.Second); ; {
+		left = bridgeGoroutines()
+		if len(left) == 0 || time.Now().After(dl) {
+			break
+		}
+		time.Sleep(2 * time.Millisecond)
+	}
+	// the final periodic report may still be on its way; the cleanup handler's report is synchronous with Close
+	cc.mu.Lock()
+	sent, updates := cc.sent, cc.updates
+	cc.mu.Unlock()
+	o["start_returned"], o["left"], o["stall_closes"], o["healthy_closes"], o["tc_closes"] = startReturned, left, int(stall.closes.Load()), int(healthy.closes.Load()), []int{int(stc.closes.Load()), int(ttc.closes.Load())}
+	o["stats_sent"], o["updates"], o["disposed"] = sent, updates, b.IsClosed()
+	side := []string{"source", "target"}[c.Side&1]
+	switch {
+	case !closeReturned:
+		return fail(o, "bridge-close-blocked-by-stalled-write", fmt.Sprintf("%d Bridge.Close call(s) while the write to the stalled %s peer was blocked did not return within 3 s; bridge goroutines: %s", k, side, strings.Join(hung, ", ")))
+	case !startReturned:
+		return fail(o, "bridge-start-hang", fmt.Sprintf("Bridge.Start did not return after Close (stalled %s peer); bridge goroutines: %s", side, strings.Join(left, ", ")))
+	case len(left) > 0:
+		return fail(o, "bridge-goroutine-leak", fmt.Sprintf("goroutines left after Bridge.Close (stalled %s peer): %s", side, strings.Join(left, ", ")))
+	case stc.closes.Load() != 1 || ttc.closes.Load() != 1:
+		return fail(o, "bridge-close-count", fmt.Sprintf("tunnel connections closed %d/%d times (stalled %s peer)", stc.closes.Load(), ttc.closes.Load(), side))
+	case !b.IsClosed():
+		return fail(o, "bridge-close-count", "bridge not disposed after Close")
+	case sent != 7:
+		key := "traffic-under-report"
+		if sent > 7 {
+			key = "traffic-double-report"
+		}
+		return fail(o, key, fmt.Sprintf("the cleanup handler should have reported the 7 counted bytes once; cloud control has sent=%d after %d updates", sent, updates))
+	}
+	return o
+}
+
+// runBridgeStartRace: Start, SetTargetConnection and K Close calls are released by one barrier (Close racing with the
+// wake-up of Start): nothing may panic, Start must return, no (*Bridge). goroutine may remain.
+func runBridgeStartRace(c caseIn) out {
+	o := out{"prop_ok": true}
+	bad := 0
+	for trial := 0; trial < c.Trials; trial++ {
+		cc := newGatedCC()
+		cc.free = true
+		ctx, cancel := context.WithCancel(context.Background())
+		sa, sb := net.Pipe()
+		ta, tb := net.Pipe()
+		src, tgt := &cntNetConn{Conn: sa}, &cntNetConn{Conn: ta}
+		var sst, tst stream.PackageStreamer
+		if trial%2 == 0 {
+			sst, tst = stream.NewStreamProcessor(src, src, ctx), stream.NewStreamProcessor(tgt, tgt, ctx)
+		}
+		stc := &fakeTC{id: "s", conn: src, st: sst}
+		ttc := &fakeTC{id: "t", conn: tgt, st: tst}
+		b := stun.NewBridge(ctx, &stun.BridgeConfig{TunnelID: "sr", MappingID: "m1", CloudControl: cc, SourceTunnelConn: stc})
+		if c.Started { // the target is attached before: Start wakes immediately
+			b.SetTargetConnection(ttc)
+		}
+		startDone := make(chan struct{})
+		pan := barrierRun(c.K+2, func(i int) {
+			switch {
+			case i == 0:
+				defer close(startDone)
+				b.Start()
+			case i == 1:
+				if !c.Started {
+					b.SetTargetConnection(ttc)
+				}
+			default:
+				b.Close()
+			}
+		})
+		sb.Close()
+		tb.Close()
+		if len(pan) > 0 {
+			cancel()
+			return fail(o, "bridge-panic", fmt.Sprintf("trial %d: Bridge.Close racing with Start (target attached before=%v): %s", trial, c.Started, pan[0]))
+		}
+		select {
+		case <-startDone:
+		case <-time.After(waitLong):
+			cancel()
+			return fail(o, "bridge-start-hang", "Bridge.Start did not return after Close")
+		}
+		if !b.IsClosed() || stc.closes.Load() != 1 {
+			bad++
+			fail(o, "bridge-close-count", fmt.Sprintf("trial %d: disposed=%v, source tunnel connection closed %d times", trial, b.IsClosed(), stc.closes.Load()))
+		}
+		cancel()
+	}
+	o["trials"], o["bad"] = c.Trials, bad
+	var left []string
+	for dl := time.Now().Add(3 * time.Second); ; {
+		left = bridgeGoroutines()
+		if len(left) == 0 || time.Now().After(dl) {
+			break
+		}
+		time.Sleep(2 * time.Millisecond)
+	}
+	if len(left) > 0 && o["prop_ok"].(bool) {
+		o["leak"] = left
+		fail(o, "bridge-goroutine-leak", "goroutines left after Bridge.Close racing with Start: "+strings.Join(left, "; "))
+	}
+	return o
+}
+
 // ---------------------------------------------------------------------------------------------------
 // D. StreamProcessor, memory.Storage, SessionManager
 // ---------------------------------------------------------------------------------------------------
@@ -1678,6 +2050,12 @@ func runCase(raw json.RawMessage) interface{} {
 			o = runTunnelRace(c)
 		case "tunnel_sched":
 			o = runTunnelSched(c)
+		case "tunnel_start":
+			o = runTunnelStart(c)
+		case "bridge_stall":
+			o = runBridgeStall(c)
+		case "bridge_startrace":
+			o = runBridgeStartRace(c)
 		case "traffic_gate":
 			o = runTrafficGate(c)
 		case "bridge_close_gate":
